@@ -432,6 +432,33 @@ func signing(r *ev.Run) {
 		}
 		r.Nontrivial(fmt.Sprintf("seq:%v:%v", list, hist))
 	}
+	// default retry configuration (Retries and PerTryTimeout left unset or partly set): a hanging first endpoint must not
+	// eat the caller's whole deadline. Costs ~10 s of retries and backoff, hence thorough only.
+	if r.Thorough() {
+		if c := r.Case("sign-defaults", 0); c != nil {
+			list := []string{ips[0], ips[1]}
+			byIP[ips[0]].Set(func(ctx context.Context, _ *proto.SSHCertificateSigningRequest) (*proto.SSHKey, error) {
+				<-ctx.Done()
+				return nil, ctx.Err()
+			})
+			text, _, _ := reply(c.Rand, 1)
+			byIP[ips[1]].Set(func(context.Context, *proto.SSHCertificateSigningRequest) (*proto.SSHKey, error) {
+				return &proto.SSHKey{Key: text}, nil
+			})
+			r.Eval(1)
+			signer, err := crypki.NewSigner(crypki.SignerConfig{TLSClientKeyFile: clientKey, TLSClientCertFile: clientCert, TLSCACertFiles: []string{caPath}, CrypkiEndpoints: list, CrypkiPort: uint(port), PerTryTimeout: 400 * time.Millisecond})
+			if err == nil {
+				ctx, cancel := context.WithTimeout(context.Background(), 90*time.Second)
+				certs, _, serr := signer.Sign(ctx, &proto.SSHCertificateSigningRequest{KeyMeta: &proto.KeyMeta{Identifier: "x"}, Principals: []string{"a"}, PublicKey: "k", Validity: 60})
+				cancel()
+				if serr != nil || len(certs) != 1 || len(byIP[ips[1]].Calls()) != 1 {
+					r.Violation(c, "hanging-endpoint-blocks-failover-with-default-retries", fmt.Sprintf("err=%v certs=%d; second endpoint received %d requests", serr, len(certs), len(byIP[ips[1]].Calls())), nil)
+				} else {
+					r.Count("failover past a hanging endpoint with default retry settings", 1)
+				}
+			}
+		}
+	}
 	r.Extra("signing_cases", idx)
 }
 
